@@ -270,6 +270,11 @@ func c03Check(ctx *vfCtx, c c03Case) {
 				return
 			}
 			if err != nil {
+				// a path whose parent exists with a non-object value cannot be set: a clean error
+				if uo, _, e2 := jparse(cur.Unsigned()); e2 == nil && c03ParentNotObject(uo, ed.Path) {
+					ctx.Class("edit/set_unsigned_field/parent-not-object(refused)")
+					continue
+				}
 				ctx.Fail("C03/set-unsigned-field-error", "SetUnsignedField(%q) failed: %v", ed.Path, err)
 				return
 			}
@@ -364,6 +369,22 @@ func c03Check(ctx *vfCtx, c c03Case) {
 type jsonRaw []byte
 
 func (r jsonRaw) MarshalJSON() ([]byte, error) { return r, nil }
+
+// c03ParentNotObject reports whether some proper prefix of the dotted path exists with a non-object value.
+func c03ParentNotObject(v jv, path string) bool {
+	parts := strings.Split(strings.ReplaceAll(strings.ReplaceAll(path, `\.`, "\x00"), `\*`, "*"), ".")
+	for _, k := range parts[:len(parts)-1] {
+		next, ok := v.get(strings.ReplaceAll(k, "\x00", "."))
+		if !ok {
+			return false
+		}
+		if next.K != 'o' {
+			return true
+		}
+		v = next
+	}
+	return false
+}
 
 // c03Lookup follows a gjson-style dotted path (with \. and \* escapes) in an object tree.
 func c03Lookup(v jv, path string) (jv, bool) {
